@@ -429,16 +429,26 @@ class DisjunctionMaxMatcher(UnionMatcher):
         aq = a.block_quality()
         bq = b.block_quality()
         while a.is_active() and b.is_active() and max(aq, bq) <= minquality:
+            moved = False
             if aq <= minquality:
+                before = a.id()
                 skipped += a.skip_to_quality(minquality)
                 if not a.is_active():
                     break
+                moved = a.id() != before
                 aq = a.block_quality()
             if bq <= minquality:
+                before = b.id()
                 skipped += b.skip_to_quality(minquality)
                 if not b.is_active():
                     break
+                moved = moved or b.id() != before
                 bq = b.block_quality()
+            if not moved:
+                # A sub-matcher may decline to move although its block quality
+                # is not above the threshold (additive matchers only skip
+                # blocks strictly below it): don't ask again forever
+                break
         return skipped
 
 
